@@ -59,6 +59,11 @@ mkdir -p "$S/vroot/sim/target"
 for P in "$@"; do
   out="$("$BIN" check --prop "$P" --tier "${VERIF_TIER:-quick}" --seed "${VERIF_SEED:-1}" --root "$S/vroot" "${DEVARG[@]}" 2>&1)"; rc=$?
   first="$(echo "$out" | grep -m1 -E '^  C[0-9]+ \[' | cut -c1-220)"
+  if [ "$P" = C06 ] && [ $rc -eq 0 ]; then
+    # the auxiliary no_std build probe is part of the C06 check (./check runs it through substrates.sh)
+    pr="$(VERIF_REPO="$S/repo" VERIF_NOSTD_TARGET="$S/nostd" "$ROOT/selftest/nostd_probe.sh" 2>&1)"; prc=$?
+    if [ $prc -eq 1 ]; then rc=1; first="  C06 [needs-std] $pr"; fi
+  fi
   case $rc in
     0) echo "$(basename "$PATCH") $P missed" ;;
     1) echo "$(basename "$PATCH") $P DETECTED $first" ;;
